@@ -132,7 +132,7 @@ func (a *c16StatusAn) litInit(f *flow.Func, lit *ast.CompositeLit) c16Cur {
 
 // atomicWrite recognises sync/atomic writes to <x>.statusFlag.
 func (a *c16StatusAn) atomicWrite(f *flow.Func, call *ast.CallExpr) (x ast.Expr, kind string) {
-	fo, ok := f.Callee(call).(*types.Func)
+	fo, ok := c16FnOK(f, call)
 	if !ok || fo.Pkg() == nil || fo.Pkg().Path() != "sync/atomic" || len(call.Args) < 1 {
 		return nil, ""
 	}
@@ -190,7 +190,7 @@ func (a *c16StatusAn) writesStatus(d *ast.FuncDecl, depth int) bool {
 		case *ast.CallExpr:
 			if _, kind := a.atomicWrite(f, x); kind != "" {
 				yes = true
-			} else if fo, ok := f.Callee(x).(*types.Func); ok && depth < 3 {
+			} else if fo, ok := c16FnOK(f, x); ok && depth < 3 {
 				if cd := a.e.decls[fo]; cd != nil && cd != d && a.writesStatus(cd, depth+1) {
 					yes = true
 				}
@@ -223,7 +223,7 @@ func (a *c16StatusAn) closes(d *ast.FuncDecl, depth int) bool {
 		if x, ok := n.(*ast.CallExpr); ok {
 			if calleeFull(f, x) == "builtin.close" && len(x.Args) == 1 && c16Sel(f, x.Args[0], a.doneF) {
 				yes = true
-			} else if fo, ok := f.Callee(x).(*types.Func); ok && depth < 3 {
+			} else if fo, ok := c16FnOK(f, x); ok && depth < 3 {
 				if cd := a.e.decls[fo]; cd != nil && cd != d && a.closes(cd, depth+1) {
 					yes = true
 				}
@@ -274,7 +274,7 @@ func (a *c16StatusAn) ctorCall(f *flow.Func, x ast.Expr) *ast.FuncDecl {
 	if !ok {
 		return nil
 	}
-	fo, ok := f.Callee(call).(*types.Func)
+	fo, ok := c16FnOK(f, call)
 	if !ok {
 		return nil
 	}
@@ -309,8 +309,27 @@ func (a *c16StatusAn) run(f *flow.Func, targets map[types.Object]bool, entry c16
 			a.badAfter, a.badWhy = st, "after the connection was registered, "+via+" sets its status to "+cur.val+", for which disconnected() is true, although the connection is not being closed"
 		}
 	}
+	var inline func(*ast.CallExpr, *types.Func) *flow.Func
+	if handle {
+		// follow the registration and the status writes into the helpers handleConn was split into
+		inline = a.e.inlineWhere(f, func(g *flow.Func, n ast.Node) bool {
+			switch x := n.(type) {
+			case *ast.AssignStmt:
+				for _, l := range x.Lhs {
+					if a.e.isClientsLookup(g, l) || c16Sel(g, l, a.statusF) {
+						return true
+					}
+				}
+			case *ast.CallExpr:
+				_, kind := a.atomicWrite(g, x)
+				return kind != ""
+			}
+			return false
+		})
+	}
 	return analyze(a.e.c, f, flow.Config{
 		NoHavoc: true,
+		Inline:  inline,
 		OnBlock: func(st *flow.State, b *cfg.Block) {
 			if !st.Is(c16StInit, flow.True) {
 				st.Set(c16StInit, flow.True)
@@ -365,7 +384,7 @@ func (a *c16StatusAn) run(f *flow.Func, targets map[types.Object]bool, entry c16
 			if d == nil || !c16IsClientMethod(d) || !targets[c16Obj(f, c16Recv(call))] {
 				return
 			}
-			if handle && (fo.Name() == "readLoop" || fo.Name() == "writeLoop") {
+			if handle && (d == a.e.declOfAnchor("readLoop") || d == a.e.declOfAnchor("writeLoop")) {
 				return // the connection's life; its end is the subject of R-C16-3
 			}
 			if !a.writesStatus(d, 0) {
@@ -488,7 +507,7 @@ func (a *c16StatusAn) parsePredicate(f *flow.Func) (desc string, ok bool) {
 		if !isC || len(call.Args) != 1 {
 			return false
 		}
-		fo, isF := f.Callee(call).(*types.Func)
+		fo, isF := c16FnOK(f, call)
 		if !isF || fo.Pkg() == nil || fo.Pkg().Path() != "sync/atomic" || !strings.HasPrefix(fo.Name(), "Load") {
 			return false
 		}
@@ -539,6 +558,9 @@ func (a *c16StatusAn) parsePredicate(f *flow.Func) (desc string, ok bool) {
 func c16Status(e *c16Env) {
 	c := e.c
 	hcons := fname(mq, "Broker", "handleConn")
+	if hf0 := e.anchor("handleConn"); hf0 != nil {
+		hcons = e.fnameOf(hf0)
+	}
 	if !e.discRelied {
 		c.Discharge("R-C16-5", hcons+"|registered connection does not look disconnected", "-", "no un-registration relies on registered.disconnected() (R-C16-3), nothing to show")
 		return
@@ -548,7 +570,7 @@ func c16Status(e *c16Env) {
 	a.statusF = structField(c, mq, "Client", "statusFlag")
 	a.doneF = structField(c, mq, "Client", "done")
 	pf := fn(c, mq, "Client", "disconnected")
-	hf := fn(c, mq, "Broker", "handleConn")
+	hf := e.anchor("handleConn")
 	if a.statusF == nil || a.doneF == nil || pf == nil || hf == nil {
 		return
 	}
@@ -558,11 +580,12 @@ func c16Status(e *c16Env) {
 		return
 	}
 	targets := a.targets(hf)
+	e.bindParams(hf, targets, 3)
 	var regs []ast.Node
-	ast.Inspect(hf.Body, func(n ast.Node) bool {
+	inspectReach(hf, 3, func(g *flow.Func, n ast.Node) bool {
 		if as, ok := n.(*ast.AssignStmt); ok && len(as.Lhs) == len(as.Rhs) {
 			for i, l := range as.Lhs {
-				if e.isClientsLookup(hf, l) && targets[c16Obj(hf, as.Rhs[i])] {
+				if e.isClientsLookup(g, l) && targets[c16Obj(g, as.Rhs[i])] {
 					regs = append(regs, as)
 				}
 			}
